@@ -179,7 +179,10 @@ def ops_alphabet(njobs_max=3):
 def apply(world, op):
     kind = op[0]
     if kind == "add":
-        world.add(op[1], op[2])
+        if len(op) > 3:
+            world.add(op[1], op[2], timeout=op[3])
+        else:
+            world.add(op[1], op[2])
     elif kind == "pull":
         return world.start_pull(op[1], op[2])
     elif kind == "run":
